@@ -15,7 +15,7 @@ LEVEL_TEXT = ("TLC explores Ownership.tla exhaustively: every program over 2-3 c
               "end of every script exactly what the ledger says the program owns is deleted and the live heap must be back at its "
               "starting value (leak / double free = violation).  The same per-script heap balance is enforced on every script of the "
               "other object checks (C01-C05, C07, C12, C14).")
-LEVEL_NOTE = ("Bounded programs (2-3 objects, at most 2 held listings/arrays/pairs); heap balance measured per script with "
+LEVEL_NOTE = ("Bounded programs (2-3 objects in the quick tier, 4 in the thorough tier, at most 2 held listings/arrays/pairs); heap balance measured per script with "
               "__sanitizer_get_current_allocated_bytes.  Trusted: TLC, ASan, the harness ledger (harness/own_replay.c).")
 TECHNIQUE = "TLA+ ownership ledger + TLC exhaustive transition cover replayed on the implementation under ASan with per-script heap balance"
 DESIGN_REF = "DESIGN.md section 6 C06"
@@ -24,7 +24,7 @@ CLASSES = ["array", "linked_list", "dlinked_list"]
 NA = {"seq": ["OpSetSame", "OpSetPart", "OpSet", "OpMapGet", "OpMapRemove", "OpDelPair", "OpListing", "OpDelListing"],
       "vec": ["OpSetSame", "OpSetPart", "OpSet", "OpMapGet", "OpMapRemove", "OpDelPair", "OpListing", "OpDelListing", "OpGiveRefused"],
       "map": ["OpGive", "OpGiveRefused", "OpTakeBack", "OpTakeFirst", "OpLend", "OpToArray", "OpFreeArray"]}
-VALS = {2: "1,1", 3: "1,1,2"}      # two handles carry EQUAL values: identity vs equality
+VALS = {2: "1,1", 3: "1,1,2", 4: "1,1,2,2"}      # handles carrying EQUAL values: identity vs equality
 
 
 def init(n):
@@ -54,17 +54,24 @@ def run(ctx):
     exe = harness(ctx)
     walks = (200, 40) if ctx.tier == "quick" else (3000, 80)
     for kind in ("seq", "vec", "map"):
-        n = 3 if (ctx.tier != "quick" or kind != "map") else 2
+        n = 4 if ctx.tier != "quick" else (3 if kind != "map" else 2)
         g, res = objcheck.tlc_graph(ctx, "MC_Ownership.tla", "Ownership_%s_%d.cfg" % (kind, n), ignore_untaken=NA[kind], workers=4)
         for cls in CLASSES:
             objcheck.replay_cover(ctx, g, [tok(init(n))], exe, "%s/%s" % (kind, cls), [kind, cls, VALS[n]], keyfn, walks=walks,
                                   pairs=(20000 if ctx.tier == "quick" else 400000))
-            if kind == "map":
+            if kind == "map" and n < 4:
                 # the same programs with COMPOSITE values (the map's copy is a url / a pair / a list; set_part hands the map a
                 # component of the value it holds)
                 for vk in ("url", "pair", "list"):
                     objcheck.replay_cover(ctx, g, [tok(init(n))], exe, "%s/%s/%s-values" % (kind, cls, vk), [kind, cls, VALS[n] + ":" + vk],
                                           keyfn, walks=(walks[0] // 4, walks[1]), pairs=(5000 if ctx.tier == "quick" else 100000))
+    if ctx.tier != "quick":
+        # composite values in the 3-handle scope
+        g, res = objcheck.tlc_graph(ctx, "MC_Ownership.tla", "Ownership_map_3.cfg", ignore_untaken=NA["map"], workers=4)
+        for cls in CLASSES:
+            for vk in ("url", "pair", "list"):
+                objcheck.replay_cover(ctx, g, [tok(init(3))], exe, "map/%s/%s-values" % (cls, vk), ["map", cls, VALS[3] + ":" + vk],
+                                      keyfn, walks=(walks[0] // 4, walks[1]), pairs=100000)
     # the small value classes (pairs, tokenizers, URLs, regexps): SmallObj.tla lifecycles with per-script heap balance
     from checks import c05
     c05.small_objects(ctx)
